@@ -4,3 +4,4 @@ pub mod refm;
 pub mod run;
 pub mod sweep;
 pub mod trees;
+pub mod vecs;
